@@ -834,6 +834,37 @@ def main():
                 if scratch_:
                     _shutil.rmtree(scratch_, ignore_errors=True)
 
+    # ---------------- what a caller does with an array READ from a parameter: the simulation is the one of the parameters its model reports ----------------
+    for kindg in ("elastic", "thermal"):
+        identg_ = dict(sim=kindg, ops=["model with a per-element parameter field", "read K", "x = model.<parameter>", "x *= 2 (in place)", "read K", "compare with a simulation built from the parameters the model reports now"])
+        res.case(("edit what a parameter read returned", kindg))
+        try:
+            meshg = gen_mesh("QUAD4", 0.5)
+            fld = 1.0 + np.arange(meshg.Ne) / meshg.Ne
+            if kindg == "elastic":
+                modg = Models.Elastic.Isotropic(2, E=10.0 * fld, v=0.25, planeStress=True, thickness=1.0)
+                sg_ = Simulations.Elastic(meshg, modg)
+                pname_ = "E"
+            else:
+                modg = Models.Thermal(2.0 * fld, 1.0)
+                sg_ = Simulations.Thermal(meshg, modg)
+                pname_ = "k"
+            sg_.Get_K_C_M_F()
+            xg = getattr(modg, pname_)
+            xg *= 2.0
+            Kg1 = sg_.Get_K_C_M_F()[0].toarray()
+            repg = np.asarray(getattr(modg, pname_), float).copy()
+            if kindg == "elastic":
+                sfr = Simulations.Elastic(meshg.copy(), Models.Elastic.Isotropic(2, E=repg, v=0.25, planeStress=True, thickness=1.0))
+            else:
+                sfr = Simulations.Thermal(meshg.copy(), Models.Thermal(repg, 1.0))
+            Kfr = sfr.Get_K_C_M_F()[0].toarray()
+            if not (np.abs(Kg1 - Kfr).max() <= 1e-9 * np.abs(Kfr).max()):
+                res.fail(f"stale matrices after a caller edited in place the array a parameter read returned sim={kindg}",
+                         f"after `x = model.{pname_}; x *= 2` the model reports {pname_}[0] = {repg[0]!r} while K differs from a simulation built with the reported field by {np.abs(Kg1 - Kfr).max() / np.abs(Kfr).max():.2e} (relative)", identg_)
+        except Exception as ex:  # noqa: BLE001
+            res.fail(f"editing what a parameter read returned raises sim={kindg}", f"{type(ex).__name__}: {str(ex)[:150]}", identg_)
+
     # ---------------- who observes whom ----------------
     # every parameter holder reachable from the model must notify the simulation; the dependency table of Model/Sources.lean and
     # the registrations extracted from the constructors (Gen/C14/Observers.lean) are compared with the running code
